@@ -523,6 +523,18 @@ def run(tasks, tier, rng):
         model_verdicts=dict(sum((collections.Counter(p['model']) for p in per.values()), collections.Counter())),
         per_kernel=table, wall_correspondence_s=round(time.time() - t0, 1),
     )
+    extra['spec_not_executable_count'] = len(spec_not_exec)
+    extra['spec_disagrees_autotests_false_count'] = len(extra['spec_disagrees_autotests_false'])
+    extra['definition_lossy_float_cast_count'] = len(lossy)
+    ASSUMPTIONS[:] = [a for a in ASSUMPTIONS if not a.startswith('measured on this run:')]
+    ASSUMPTIONS.append('measured on this run: %d kernels with a placeholder / non-executable YAML definition (model or '
+                       'cross-specialization voters only): %s; %d kernels marked automatic-tests: false whose executable '
+                       'definition disagrees with the compiled code (not flagged): %s; %d kernels whose definition '
+                       'disagrees only through its double-precision float() cast (not flagged): %s' % (
+                           len(spec_not_exec), ', '.join(d['kernel'] for d in spec_not_exec),
+                           len(extra['spec_disagrees_autotests_false']),
+                           ', '.join(d['kernel'] for d in extra['spec_disagrees_autotests_false']),
+                           len(lossy), ', '.join(sorted(lossy))))
     return dict(findings=findings, corr_obligations=corr, evaluations=sum(r['n'] for r in results),
                 distinct_nontrivial=len(keys), samples=samples[:6], distribution=dict(stream=dict(modes)),
                 verdicts=dict(verd), extra=extra)
